@@ -239,6 +239,37 @@ inner call produces (if the request leads one) panics when it is cloned -/
 def arriveOps (c : Nat) (kv : Kv) : List Op :=
   (if kv.nat "clonepanic" 0 == 1 then [Op.bomb c] else []) ++ [arriveOp c kv]
 
+/-! ### a handle whose readiness fails (`arrive … rdy=<script>`)
+
+`CoalesceService::poll_ready` is the readiness of THAT HANDLE's copy of the wrapped service (`Clone for
+CoalesceService` clones `inner` and shares `in_flight`). `rdy=<script>` are the answers of the wrapped service to the
+successive `poll_ready` calls on the handle this caller is about to call ('p' pending, 'r' ready, 'e' error); the
+caller polls until an answer other than pending or until the script ends. If the handle does not become ready the
+caller is answered — with the readiness error (`err:inner9:0`, passed on as `CoalesceError::Service`) or `notready` —
+and `Service::call` is never reached. A readiness failure says something about one handle's connection and nothing
+about the calls that were led through other handles: NOTHING else happens. The line is therefore answered by the
+machine without any `Op`: the state — the in-flight table, every role, every channel, the log of the coalescing
+machinery — is what it was (`TR.Props.C11.readiness_failure_changes_nothing`, `…_leaves_table`,
+`refused_arrivals_invisible`: a history with such lines ends in the state of the history without them). -/
+
+/-- what the readiness script of an `arrive` line comes to: `none` the handle became ready (the call is made);
+`some r` it did not, and the caller is answered `r` -/
+def readiness (kv : Kv) : Option Res :=
+  match kv.get "rdy" with
+  | none => none
+  | some sc =>
+    match sc.toList.dropWhile (· == 'p') with
+    | [] => some .notReady
+    | ch :: _ => if ch == 'e' then some (.inner 9 0) else none
+
+/-- the answer to a line that is an arrival through a handle that does not become ready (`none`: any other line).
+With no service handle left the arrival is invalid (`noop`) like every other one. -/
+def refusal (s : State) (ws : List String) : Option (List Ev) :=
+  match ws with
+  | "arrive" :: c :: rest =>
+      (readiness (parseKv rest)).map fun r => if s.svcGone then [.raw "noop"] else [.result (c.toNat?.getD 0) r]
+  | _ => none
+
 def parseOp (ws : List String) : Option Op :=
   match ws with
   | "arrive" :: c :: rest => some (arriveOp (c.toNat?.getD 0) (parseKv rest))
@@ -371,6 +402,9 @@ def machine : Machine where
   σ := State × List (Nat × (Nat × Step))
   init _ := (init, [])
   step := fun (s, hooks) ws =>
+    match refusal s ws with
+    | some evs => ((s, hooks), evs)       -- the handle did not become ready: the caller is answered, nothing else happens
+    | none =>
     match ws with
     | "manual" :: "ondrop" :: rest =>
         let kv := parseKv rest
